@@ -604,7 +604,9 @@ pub fn run(ctx: &Ctx) -> ! {
          harvested library output) mutated by bit flips, byte sets, truncation, insertion, deletion, varint-form overwrites/insertions, \
          out-of-range discriminants and splices; valid inputs unchanged; values built by the crate's `arbitrary` feature, encoded, and fed back. \
          Oracle per input: no panic; peak heap growth <= 4096*len + 1 MiB; Ok(v) => encode(v) == consumed bytes, mls_encoded_len == bytes written, \
-         decode(encode(v)) == v. Plus every 1- and 2-byte varint form and sampled 4-byte forms against an RFC 9000 reference decoder. \
+         decode(encode(v)) == v. Plus every 1- and 2-byte varint form and sampled 4-byte forms against an RFC 9000 reference decoder. Plus the state a member stores \
+         (snapshot incl. secret tree with skipped message keys, pending commit, pending updates, cached proposals; prior epochs) taken from generated group histories (hook): reported length == \
+         bytes written, decodes completely, re-encodes to the same length, decoded value equal. \
          Non-trivial = input that a decoder ACCEPTED (distinct by target+bytes), arbitrary value encoding to >= 32 bytes (distinct by encoding), accepted varint value.",
     );
     ev.assume("hash-map backed state types (CommitSecrets, ExternalSnapshot) may re-encode with permuted map entries: there equality of length and of the decoded value is required instead of byte equality");
@@ -660,6 +662,18 @@ pub fn run(ctx: &Ctx) -> ! {
         finish_violation(&ev, Violation { failure: f, case: None }, json!({"kind": "varint"}));
     }
 
+    // live member state from generated histories
+    {
+        let mut hp = crate::history::HistoryParams::standard(ctx.tier);
+        hp.max_initial = 5;
+        hp.weights = [6, 8, 6, 3, 2, 2, 3, 22, 3, 10, 3, 30];
+        let spec = RunSpec { shards: 16, cases_per_shard: ctx.tier.pick(12, 300), cfg_len: crate::history::CFG_LEN, min_ops: 6, max_ops: ctx.tier.pick(24, 50), max_shrink_iters: 100 };
+        if let Err(v) = run_sharded(&ev, &spec, 1212, &|case| live_state_case(case, &ev, &hp)) {
+            let payload = v.case.as_ref().map(|c| json!({"kind": "live_state", "case": c.to_json()})).unwrap_or(Value::Null);
+            finish_violation(&ev, v, payload);
+        }
+    }
+
     let spec = RunSpec {
         shards: 16,
         cases_per_shard: ctx.tier.pick(150_000, 3_000_000),
@@ -678,8 +692,118 @@ pub fn run(ctx: &Ctx) -> ! {
     }
 }
 
+// ---------------------------------------------------------------------------------------------
+// live member state: the objects a member writes to storage (snapshot incl. secret tree with skipped message keys,
+// pending commit, pending updates, cached proposals; prior epochs), taken from generated group histories through the
+// hook `Group::verif_state_encodings`: reported length == bytes written, decodes again completely, re-encodes to the
+// same length, decoded value equals the original.
+
+struct LiveEnc<'e> {
+    ev: &'e Evidence,
+    checked: u64,
+}
+
+impl<'e> LiveEnc<'e> {
+    fn check(&mut self, w: &crate::world::World, m: usize, site: &str) -> CaseResult {
+        let g = w.parties[m].g();
+        let encs = match crate::world::guard(|| g.verif_state_encodings()) {
+            Ok(e) => e,
+            Err(e) if e.is_panic() => return Err(crate::world::panic_failure(P, "encode member state", &e)),
+            Err(e) => return Err(Failure::new(format!("{P}|live_state|encode_failed|{}", e.class()), e.text().to_string())),
+        };
+        for e in encs {
+            self.ev.eval(1);
+            self.checked += 1;
+            let detail = || format!("{} of party {m} ({site}): mls_encoded_len {} encoding {} bytes, decodes {}, re-encodes to {} bytes, decoded value equal {}", e.what, e.reported_len, e.bytes.len(), e.decodes, e.reencoded_len, e.decoded_equal);
+            if e.reported_len != e.bytes.len() {
+                return Err(Failure::new(format!("{P}|live_state|{}|mls_encoded_len_differs_from_bytes_written", e.what), detail()));
+            }
+            if !e.decodes {
+                return Err(Failure::new(format!("{P}|live_state|{}|own_encoding_does_not_decode", e.what), detail()));
+            }
+            if e.reencoded_len != e.bytes.len() || !e.decoded_equal {
+                return Err(Failure::new(format!("{P}|live_state|{}|round_trip_differs", e.what), detail()));
+            }
+            self.ev.class(&format!("live_state:{}:{site}", e.what));
+            self.ev.nontrivial(&(e.what, &e.bytes));
+        }
+        Ok(())
+    }
+    fn all(&mut self, w: &crate::world::World, site: &str) -> CaseResult {
+        for m in w.members() {
+            self.check(w, m, site)?;
+        }
+        Ok(())
+    }
+}
+
+impl<'e> crate::history::Observer for LiveEnc<'e> {
+    fn after_commit(&mut self, w: &mut crate::world::World, _i: &crate::world::CommitInfo, _s: &crate::history::HistoryStats) -> CaseResult {
+        self.all(w, "after_commit")
+    }
+    fn before_commit(&mut self, w: &mut crate::world::World, _c: usize) -> CaseResult {
+        self.all(w, "with_cached_proposals")
+    }
+    fn after_build(&mut self, w: &mut crate::world::World, c: usize) -> CaseResult {
+        self.check(w, c, "with_pending_commit")
+    }
+    fn extra_op(&mut self, w: &mut crate::world::World, op: &[u16; 5], _n: &mut crate::history::EpochNotes) -> CaseResult {
+        // out-of-order delivery: the receiver holds skipped message keys
+        let members = w.members();
+        if members.len() < 2 {
+            return Ok(());
+        }
+        let m = members[pick(op[1], members.len())];
+        let others: Vec<usize> = members.iter().copied().filter(|x| *x != m).collect();
+        let s = others[pick(op[2], others.len())];
+        w.flush(op[4])?;
+        if w.parties[s].g().commit_required() || w.parties[m].g().current_epoch() != w.parties[s].g().current_epoch() {
+            return Ok(());
+        }
+        let n = 2 + (op[3] % 4) as usize;
+        let mut fl = vec![];
+        for i in 0..n {
+            w.send_app(s, vec![i as u8; 3 + i], vec![]).map_err(|e| crate::history::op_failure(P, "encrypt_application_message", &e))?;
+            fl.push(w.inflight.pop().expect("flight"));
+        }
+        let last = fl.len() - 1;
+        let r = w.process(m, &fl[last].bytes);
+        w.check_genuine(m, &fl[last], r)?;
+        self.check(w, m, "with_skipped_message_keys")?;
+        for f in &fl[..last] {
+            let r = w.process(m, &f.bytes);
+            w.check_genuine(m, f, r)?;
+        }
+        for o in members.iter().copied().filter(|x| *x != m && *x != s) {
+            for f in &fl {
+                let r = w.process(o, &f.bytes);
+                w.check_genuine(o, f, r)?;
+            }
+        }
+        Ok(())
+    }
+}
+
+fn live_state_case(case: &Case, ev: &Evidence, hp: &crate::history::HistoryParams) -> CaseResult {
+    let mut obs = LiveEnc { ev, checked: 0 };
+    let mut h = crate::history::History::start(P, case, hp)?;
+    h.grow_initial(case, &mut obs)?;
+    h.run_ops(case, &mut obs)?;
+    ev.class_n("live_state_objects_checked", obs.checked);
+    Ok(())
+}
+
 fn replay_one(v: &Value, targets: &[Target], corpus: &Corpus, ev: &Evidence) -> CaseResult {
     match v["kind"].as_str() {
+        Some("live_state") => {
+            let mut hp = crate::history::HistoryParams::standard(Tier::Quick);
+            hp.max_initial = 5;
+            hp.weights = [6, 8, 6, 3, 2, 2, 3, 22, 3, 10, 3, 30];
+            match Case::from_json(&v["case"]) {
+                Some(c) => live_state_case(&c, ev, &hp),
+                None => Ok(()),
+            }
+        }
         Some("bytes") => {
             let name = v["target"].as_str().unwrap_or("MlsMessage");
             let bytes = hex::decode(v["bytes_hex"].as_str().unwrap_or("")).unwrap_or_default();
